@@ -50,12 +50,21 @@ Holds(name, T, o) ==
      [] name = "InvalidNeverCanonical" -> InvalidNeverCanonical(T, o)
 Failing(T, o) == { name \in ObsClauses : ~Holds(name, T, o) }
 
+\* the head's ancestor at height n, by the tree's parent links
+RECURSIVE AncAt(_, _, _)
+AncAt(T, b, n) == IF ~IsBlock(T, b) THEN "?" ELSE IF T.num[b] <= n THEN b ELSE AncAt(T, T.par[b], n)
+\* heights (up to the head) at which the number index does not name the head's ancestor
+WrongEntries(T, o) == { n \in 0..o.hn : At(o, n) # AncAt(T, o.head, n) }
+
 \* class of the failing observation (part of the discriminator)
 Class(name, T, o) ==
    CASE name = "CanonLinked" ->
           (IF At(o, o.hn) # o.head THEN {"head_not_canonical"} ELSE {})
           \cup (IF \E n \in 0..o.hn : At(o, n) = "-" THEN {"missing"} ELSE {})
           \cup (IF \E n \in 0..o.hn : At(o, n) # "-" /\ ~LinkedAt(T, o, n) THEN {"broken_link"} ELSE {})
+          \* WHICH entries are wrong relative to the head: the head's own height, the height directly below it, lower ones
+          \cup (IF \E n \in WrongEntries(T, o) : n < o.hn THEN {"wrong_below_head"} ELSE {})
+          \cup (IF o.hn >= 1 /\ (o.hn - 1) \in WrongEntries(T, o) THEN {"wrong_directly_below_head"} ELSE {})
      [] name = "LookupsCanonical" ->
           (IF \E t \in DOMAIN o.txl : o.txl[t] # "-" /\ ~IsBlock(T, o.txl[t]) THEN {"unknown_block"} ELSE {})
           \cup (IF \E t \in DOMAIN o.txl : IsBlock(T, o.txl[t]) /\ T.num[o.txl[t]] > o.hn THEN {"above_head"} ELSE {})
